@@ -64,7 +64,7 @@ CHECKS.update({
  "C14": dict(cat="other", ref="DESIGN.md §3.14", technique="tag table of the constant folder + end-to-end tag-symbolic summary of Rule::parse over known metadata lists (maps with known history decided by key comparison) + grammar shape of Rule",
    text="Decided clauses: constant folding is exhaustive over the 47 node kinds (only literals, lists and maps of constants); the assembly of the rule end to end - Rule::parse summarised with the generated parser replaced by the builder constructor run on 0/1/2 known metadata items (symbolic keys / values, folder opaque): first rejected item ends the parse with its own error, name = @name string else first comment line else MissingRuleName, metadata = the other items in order (last occurrence wins) plus the remaining comment lines as description unless a key is `description`, expression unchanged - every expected case must occur among the paths; Rule = MetaItem* Expr over the same Expr nonterminal. How a line is recognised as a comment and trimmed is NOT decided.",
    note=TB_MIR + "grammar extraction as in C07; std Result-collect / BTreeMap::insert semantics."),
- "C16": dict(cat="other", ref="DESIGN.md §3.16", technique="printer templates (format_args! byte code decoded from MIR) composed and re-parsed with the extracted grammar (Earley over sentential forms); leaf languages and token boundaries by automata on the lexer table; name slots of the grammar must be fed by IDENT",
+ "C16": dict(cat="other", ref="DESIGN.md §3.16", technique="printer templates (format_args! byte code decoded from MIR) composed and re-parsed with the extracted grammar (Earley over sentential forms); leaf languages and token boundaries by automata on the lexer table; name slots of the grammar must be fed by IDENT; forward taint over the printer region: the rendering of a sub-term may not be the receiver of a content-rewriting str/String method",
    text="For all 47 node kinds alone and all 2444 (parent, hole, child) compositions the printed token string must parse back to exactly the printed tree; each literal kind's printed language must lie inside its token and strings must be escaped by the inverse of the unescape table; no last token of a child rendering may be extended by the character that follows it. 28 failing obligations are genuine round-trip defects (known findings).",
    note="C07 (grammar == table, unambiguous); Display languages of i128/f64/Decimal from a small trusted table; grandchildren are atoms (depth-2 compositions)."),
 })
